@@ -1,2 +1,67 @@
+"""Thorough tier: mutant self-tests. Every stored breaking change (sub-agent seeded changes under seeded/, hand-written
+diffs under mutants/) that belongs to the property is applied to a scratch copy of /repo (outside /repo and /verif,
+removed afterwards); the property's own quick check must report a VIOLATION on it. A diff that no longer applies is
+'skipped'. Results are evidence about the checker; a missed mutant makes the run exit 2 (checker broken), never 1."""
+import json
+import os
+import shutil
+import subprocess
+import tempfile
+
+from engine import facts
+
+VERIF = facts.VERIF
+
+
+def _mutants_for(prop):
+    out = []
+    for base in ("seeded", "mutants"):
+        d = os.path.join(VERIF, base)
+        if not os.path.isdir(d):
+            continue
+        for name in sorted(os.listdir(d)):
+            mp = os.path.join(d, name, "meta.json")
+            pp = os.path.join(d, name, "patch.diff")
+            if not (os.path.exists(mp) and os.path.exists(pp)):
+                continue
+            meta = json.load(open(mp))
+            props = meta.get("caught_by") or [meta.get("property")]
+            if prop in props:
+                out.append(("%s/%s" % (base, name), pp, meta))
+    return out
+
+
 def run_for(run, prop):
-    pass
+    ms = _mutants_for(prop)
+    if not ms:
+        return
+    repo = os.environ.get("AGL_REPO", "/repo")
+    scratch_root = os.path.join(facts.SCRATCH, "mutants")
+    os.makedirs(scratch_root, exist_ok=True)
+    results = []
+    for (name, patch, meta) in ms:
+        work = tempfile.mkdtemp(prefix="m-", dir=scratch_root)
+        try:
+            for item in ("src", "Cargo.toml", "Cargo.lock", "build.rs", "benches", "data"):
+                sp = os.path.join(repo, item)
+                if os.path.isdir(sp) and item in ("src", "benches"):
+                    shutil.copytree(sp, os.path.join(work, item))
+                elif os.path.isfile(sp):
+                    shutil.copy2(sp, os.path.join(work, item))
+            r = subprocess.run(["git", "apply", "--unsafe-paths", "--directory=" + work, patch], cwd="/", stdout=subprocess.PIPE, stderr=subprocess.STDOUT, text=True)
+            if r.returncode != 0:
+                r = subprocess.run(["patch", "-p1", "-s", "-d", work, "-i", patch], stdout=subprocess.PIPE, stderr=subprocess.STDOUT, text=True)
+            if r.returncode != 0:
+                results.append({"mutant": name, "status": "skipped", "why": "diff no longer applies"})
+                continue
+            ev = os.path.join(work, "evidence")
+            env = dict(os.environ, AGL_REPO=work, AGL_EVIDENCE_DIR=ev, VERIF_TIER="quick")
+            c = subprocess.run([os.path.join(VERIF, "bin", "check"), prop], env=env, stdout=subprocess.PIPE, stderr=subprocess.STDOUT, text=True)
+            viol = [l for l in c.stdout.splitlines() if l.startswith("  O")]
+            results.append({"mutant": name, "status": "caught" if c.returncode == 1 else ("checker-broken" if c.returncode == 2 else "MISSED"),
+                            "rc": c.returncode, "reported": [v.strip()[:160] for v in viol[:3]], "what": meta.get("summary", "")[:160]})
+        finally:
+            shutil.rmtree(work, ignore_errors=True)
+    for r in results:
+        run.selftest("mutant/" + r["mutant"], r["status"] in ("caught", "skipped"), True)
+    run.notes.append("mutants: " + json.dumps(results))
